@@ -66,6 +66,8 @@ def main():
                 print("%-34s PATCH-FAILED" % r["patch"])
             sys.stdout.flush()
     res.sort(key=lambda r: r["patch"])
+    if os.environ.get("VERIF_NO_RESULTS"):
+        return      # called from a check's thorough tier: the outcome goes into that run's evidence only
     name = "RESULTS_benign.json" if benign else "RESULTS.json"
     old = {}
     path = os.path.join(V, "mutants", name)
